@@ -4,11 +4,13 @@
 package c05
 
 import (
+	"context"
 	"fmt"
 	"math"
 	"math/big"
 	"strings"
 	"testing"
+	"time"
 
 	"github.com/mattn/anko/env"
 	"pgregory.net/rapid"
@@ -20,14 +22,14 @@ import (
 
 // Node is a typed expression tree. Leaves: Op == "leaf".
 type Node struct {
-	Op   string  `json:"op"`
-	K    string  `json:"k,omitempty"`    // leaf kind: i f s
-	I    int64   `json:"i,omitempty"`    // int leaf
-	FB   uint64  `json:"fb,omitempty"`   // float leaf (bits)
-	S    string  `json:"s,omitempty"`    // string leaf
-	Prov string  `json:"prov,omitempty"` // lit | var | id
-	L    *Node   `json:"l,omitempty"`
-	R    *Node   `json:"r,omitempty"`
+	Op   string `json:"op"`
+	K    string `json:"k,omitempty"`    // leaf kind: i f s
+	I    int64  `json:"i,omitempty"`    // int leaf
+	FB   uint64 `json:"fb,omitempty"`   // float leaf (bits)
+	S    string `json:"s,omitempty"`    // string leaf
+	Prov string `json:"prov,omitempty"` // lit | var | id
+	L    *Node  `json:"l,omitempty"`
+	R    *Node  `json:"r,omitempty"`
 }
 
 type Case struct {
@@ -580,7 +582,24 @@ func genSmallTree(t *rapid.T, depth int) *Node {
 	}
 }
 
+// canary evaluates a few small sums in a fresh environment: once a shared box of the
+// small-value fast path has been overwritten, these change for the rest of the process.
+func canary() string {
+	got, err := ank.Exec(newEnv(), "[0 + 0, 0 + 1, 1 + 1, 1 + 2, 2 + 2, 2 * 3, 0 - 1, 64 * 64 - 1]")
+	if err != nil {
+		return "error: " + err.Error()
+	}
+	return ank.Describe(got)
+}
+
+const canaryWant = "[]interface {}[int64(0), int64(1), int64(2), int64(3), int64(4), int64(6), int64(-1), int64(4095)]"
+
+var lastHist string
+
 func oracleHist(c HistCase, o *h.Obs) *h.Fail {
+	if cv := canary(); cv != canaryWant {
+		return h.Failf("C05|cached|small-integer-results-changed-by-an-earlier-run", "small integer arithmetic in a FRESH environment no longer gives Go's results: a previous script run in this process changed them (shared mutable boxes behind the small-value fast path)\nwant %s\ngot  %s\nthe previous history run in this process was:\n%s", canaryWant, cv, lastHist)
+	}
 	p := &printer{}
 	expr := p.expr(c.Root)
 	src := strings.Join(c.Pre, "\n") + "\n" + strings.Join(append(p.vars, expr), "\n")
@@ -591,7 +610,18 @@ func oracleHist(c HistCase, o *h.Obs) *h.Fail {
 	if st.nearCache {
 		o.Class("hist_result_near_cache_bound")
 	}
-	got, err := ank.Exec(newEnv(), src)
+	lastHist = src
+	ctx, cancel := context.WithTimeout(context.Background(), 5*time.Second)
+	got, err := ank.ExecCtx(ctx, newEnv(), src)
+	timedOut := ctx.Err() != nil
+	cancel()
+	if timedOut {
+		if cv := canary(); cv != canaryWant {
+			return h.Failf("C05|cached|small-integer-results-changed-by-an-earlier-run", "a bounded history did not finish within 5 s and small integer arithmetic in a fresh environment is now wrong\nwant %s\ngot  %s\nhistory:\n%s", canaryWant, cv, src)
+		}
+		o.Excluded = "history did not finish within 5 s (not judged)"
+		return nil
+	}
 	if hp, ok := ank.IsHostPanic(err); ok {
 		return h.Failf("C05|host-panic|"+ank.NormPanic(hp.Value), "source:\n%s\nescaped panic: %v", src, hp.Value)
 	}
